@@ -1,5 +1,4 @@
 //@ PROPERTY C17
-//@ MODELDEF VERIF_STRLEN_ZERO
 //@ STUB _ZSt8to_charsPcS_d _ZSt8to_charsPcS_f
 // C17: validation reports exactly the failing rules.
 //  h17a  validator kernels (validators.h): Required, Range<T>, MinSize, MaxSize with symbolic bounds / value / isLoaded:
@@ -93,13 +92,48 @@ VH_EXPORT int vp_h17b_split(const unsigned char* in, unsigned char* out) {
 	for (int i = 0; i < 3; i++) if (i < ne && ctx.tags[i] != exp[i]) return 0;
 	return scope.loaded ? target == scope.value : target == 4242;
 }
-//@ OBL {"name":"h17a_required","prop":"vp_h17a_required","in":8,"out":8,"unwind":4,"bounds":"every value, both loaded states","desc":"Required fails iff the field was not loaded"}
-//@ OBL {"name":"h17a_range_i32","prop":"vp_h17a_range_i32","in":25,"out":8,"unwind":4,"bounds":"every int32 value / min / max, both loaded states","desc":"Range<int32>: inclusive bounds, passes when absent"}
-//@ OBL {"name":"h17a_range_u64","prop":"vp_h17a_range_u64","in":25,"out":8,"unwind":4,"bounds":"every uint64 value / min / max","desc":"Range<uint64>"}
-//@ OBL {"name":"h17a_range_i64","prop":"vp_h17a_range_i64","in":25,"out":8,"unwind":4,"bounds":"every int64 value / min / max","desc":"Range<int64>"}
-//@ OBL {"name":"h17a_range_f64","prop":"vp_h17a_range_f64","in":25,"out":8,"unwind":4,"bounds":"every double value / min / max (incl. NaN, infinities)","desc":"Range<double>"}
-//@ OBL {"name":"h17a_minsize","prop":"vp_h17a_minsize","in":17,"out":8,"unwind":4,"bounds":"every size and limit","desc":"MinSize: inclusive, passes when absent"}
-//@ OBL {"name":"h17a_maxsize","prop":"vp_h17a_maxsize","in":17,"out":8,"unwind":4,"bounds":"every size and limit","desc":"MaxSize: inclusive, passes when absent"}
-//@ OBL {"name":"h17b_split","prop":"vp_h17b_split","in":8,"out":8,"unwind":6,"fs":32,"bounds":"three validators with every combination of verdicts for the loaded / absent case, symbolic loaded flag and value","desc":"SplitAndSerialize: recorded errors == failing validators in declaration order under <path>/<key>; value loaded regardless"}
+// ---- h17c: the real SerializationContext: errors arrive for 3 paths out of {"/a", "/a/b", "/b", "/ab"} in a symbolic order
+VH_EXPORT int vp_h17c_context(const unsigned char* in, unsigned char* out) {
+	static const char* const paths[4] = { "/a", "/a/b", "/b", "/ab" };
+	SerializationOptions opt; opt.maxValidationErrors = 0;
+	SerializationContext ctx(opt);
+	unsigned sel[3] = { in[0] % 4u, in[1] % 4u, in[2] % 4u };
+	int rc = vh::outcome([&] {
+		for (int i = 0; i < 3; i++) ctx.AddValidationError(std::string(paths[sel[i]]), std::string(1, (char)('x' + i)));
+	});
+	int thrown = 0; int count[4] = { 0, 0, 0, 0 }; char first[4] = { 0, 0, 0, 0 }; size_t nkeys = 0; bool order_ok = true;
+	try { ctx.OnFinishSerialization(); }
+	catch (const ValidationException& ex) {
+		thrown = 1;
+		for (const auto& kv : ex.GetValidationErrors()) {
+			nkeys++;
+			for (int p = 0; p < 4; p++) if (kv.first == paths[p]) {
+				count[p] = (int)kv.second.size();
+				first[p] = kv.second.empty() ? 0 : kv.second[0][0];
+				// messages of one field keep their arrival order
+				for (size_t j = 1; j < kv.second.size(); j++) if (kv.second[j][0] <= kv.second[j - 1][0]) order_ok = false;
+			}
+		}
+	}
+	out[0] = (unsigned char)rc; out[1] = (unsigned char)thrown; out[2] = (unsigned char)nkeys; for (int p = 0; p < 4; p++) out[3 + p] = (unsigned char)count[p];
+	if (rc != vh::OK || !thrown || !order_ok) return 0;
+	size_t distinct = 0;
+	for (int p = 0; p < 4; p++) {
+		int want = 0; char wf = 0;
+		for (int i = 2; i >= 0; i--) if ((int)sel[i] == p) { want++; wf = (char)('x' + i); }
+		if (count[p] != want || (want && first[p] != wf)) return 0;
+		if (want) distinct++;
+	}
+	return nkeys == distinct;
+}
+//@ OBL {"name": "h17c_context", "prop": "vp_h17c_context", "in": 8, "out": 8, "unwind": 10, "fs": 32, "cap_s": 3600, "bounds": "3 errors over the paths /a, /a/b, /b, /ab in every order and multiplicity (a path that is a prefix of another one included)", "desc": "SerializationContext: ValidationException lists exactly the failing fields, each with exactly its messages in arrival order", "tier": "thorough"}
+//@ OBL {"name": "h17a_required", "prop": "vp_h17a_required", "in": 8, "out": 8, "unwind": 4, "bounds": "every value, both loaded states", "desc": "Required fails iff the field was not loaded"}
+//@ OBL {"name": "h17a_range_i32", "prop": "vp_h17a_range_i32", "in": 25, "out": 8, "unwind": 4, "bounds": "every int32 value / min / max, both loaded states", "desc": "Range<int32>: inclusive bounds, passes when absent"}
+//@ OBL {"name": "h17a_range_u64", "prop": "vp_h17a_range_u64", "in": 25, "out": 8, "unwind": 4, "bounds": "every uint64 value / min / max", "desc": "Range<uint64>"}
+//@ OBL {"name": "h17a_range_i64", "prop": "vp_h17a_range_i64", "in": 25, "out": 8, "unwind": 4, "bounds": "every int64 value / min / max", "desc": "Range<int64>"}
+//@ OBL {"name": "h17a_range_f64", "prop": "vp_h17a_range_f64", "in": 25, "out": 8, "unwind": 4, "bounds": "every double value / min / max (incl. NaN, infinities)", "desc": "Range<double>"}
+//@ OBL {"name": "h17a_minsize", "prop": "vp_h17a_minsize", "in": 17, "out": 8, "unwind": 4, "bounds": "every size and limit", "desc": "MinSize: inclusive, passes when absent"}
+//@ OBL {"name": "h17a_maxsize", "prop": "vp_h17a_maxsize", "in": 17, "out": 8, "unwind": 4, "bounds": "every size and limit", "desc": "MaxSize: inclusive, passes when absent"}
+//@ OBL {"name": "h17b_split", "prop": "vp_h17b_split", "in": 8, "out": 8, "unwind": 6, "fs": 32, "bounds": "three validators with every combination of verdicts for the loaded / absent case, symbolic loaded flag and value", "desc": "SplitAndSerialize: recorded errors == failing validators in declaration order under <path>/<key>; value loaded regardless"}
 //@ VEC * 0105000000010000000a000000
 //@ VEC * 00ffffffffffffffff0000000000000000ffffffffffffffff00
